@@ -585,4 +585,63 @@ Proof.
       destruct (Z.gtb_spec (lenZ st + lenZ al) 1000); [reflexivity|].
       split; [exists pb; reflexivity|]. apply INV; [split; assumption|exact Hn|subst r1; cbn [r_stack r_alt]; lia].
 Qed.
+
+Lemma get_op_shorter code op d rest : Spec.Script.get_op code = Ok (op, d, rest) -> (length rest < length code)%nat.
+Proof.
+  intros G. apply get_op_ok in G as [E W]. rewrite E, app_length. unfold op_bytes.
+  destruct d as [x|]; [|simpl; lia].
+  destruct (op <? 76); [simpl; lia|]. destruct (op =? 76); [simpl; lia|]. destruct (op =? 77); simpl; lia.
+Qed.
+
+Lemma loop_sim scriptIn : forall fuel code off r pb,
+  (length code <= fuel)%nat -> inv r ->
+  forallb (fun o => nosig (sop_opcode o)) (fst (ref_ops fuel code off)) = true ->
+  match eval_loop fuel code r with
+  | Some r' => snd (ref_ops fuel code off) = None /\
+               exists pb', run_ops scriptIn (abs r pb) (fst (ref_ops fuel code off)) = Ok (abs r' pb')
+  | None => run_ops scriptIn (abs r pb) (fst (ref_ops fuel code off)) = Err EvalErr \/
+            exists s' e, run_ops scriptIn (abs r pb) (fst (ref_ops fuel code off)) = Ok s' /\
+                         snd (ref_ops fuel code off) = Some e /\ is_script_err e = true
+  end.
+Proof.
+  induction fuel as [|f IH]; intros code off r pb L I NS.
+  - destruct code; [|simpl in L; lia]. cbn. split; [reflexivity|exists pb; reflexivity].
+  - destruct code as [|c code']; [cbn; split; [reflexivity|exists pb; reflexivity]|].
+    cbn [ScriptRef.eval_loop ref_ops] in *.
+    destruct (Spec.Script.get_op (c :: code')) as [[[op d] rest]|e] eqn:G.
+    + cbn [fst snd cons_op] in NS |- *. cbn [forallb sop_opcode] in NS. apply andb_true_iff in NS as [NS1 NS2].
+      pose proof (step_sim scriptIn r pb op d off rest (c :: code') G I NS1) as ST.
+      pose proof (get_op_shorter _ _ _ _ G) as SH.
+      destruct (ref_step op d rest r) as [r1|].
+      * destruct ST as [[pb1 ST] I1]. cbn [ScriptEval.run_ops]. rewrite ST. cbn [bind].
+        specialize (IH rest (off + (lenZ (c :: code') - lenZ rest)) r1 pb1 ltac:(cbn [length] in *; lia) I1 NS2). exact IH.
+      * left. cbn [ScriptEval.run_ops]. rewrite ST. reflexivity.
+    + right. cbn [fst snd ScriptEval.run_ops]. exists (abs r pb), e. split; [reflexivity|]. split; [reflexivity|].
+      apply get_op_err in G as [G _]; [|discriminate]. now apply is_script_err_cases.
+Qed.
+
+(* EvalScript on a script without signature-checking operations: the model fails (with
+   EvalScriptError, nothing else) exactly when the reference fails, and otherwise leaves
+   exactly the reference's final stack *)
+Notation eval_script := (eval_script checksig ripemd160 sha1 sha256 fl).
+Notation eval_ref := (eval_ref checksig ripemd160 sha1 sha256 fl).
+Theorem eval_nosig scriptIn st :
+  Forall small st -> lenZ st < 2^31 ->
+  forallb (fun o => nosig (sop_opcode o)) (fst (ref_parse scriptIn)) = true ->
+  eval_script (rev st) scriptIn = match eval_ref st scriptIn with Some fin => Ok (rev fin) | None => Err EvalErr end.
+Proof.
+  intros S1 S2 NS. unfold ScriptEval.eval_script, eval_script_raw, ScriptRef.eval_ref.
+  change MAX_SCRIPT_SIZE with 10000. destruct (lenZ scriptIn >? 10000); [reflexivity|].
+  rewrite raw_iter_ref. unfold ref_parse in *.
+  set (r0 := {| r_stack := st; r_alt := []; r_vf := []; r_sub := scriptIn; r_nop := 0 |}).
+  change ({| stack := rev st; altstack := []; vfExec := []; pbegincodehash := 0; nOpCount := 0 |}) with (abs r0 0).
+  assert (I0 : inv r0) by (repeat split; cbn [r_stack r_alt r_nop r0]; try assumption; try constructor; lia).
+  pose proof (loop_sim scriptIn (length scriptIn) scriptIn 0 r0 0 (le_n _) I0 NS) as LS.
+  destruct (ref_ops (length scriptIn) scriptIn 0) as [ops err]. cbn [fst snd] in LS.
+  destruct (eval_loop (length scriptIn) scriptIn r0) as [r'|].
+  - destruct LS as [-> [pb' ->]]. cbn [bind]. unfold abs. cbn [vfExec stack]. rewrite len_rev.
+    destruct (r_vf r') as [|b vf']; [reflexivity|]. cbn [is_nil].
+    destruct (Z.eqb_spec (len (b :: vf')) 0) as [E|E]; [rewrite len_cons in E; pose proof (len_nonneg vf'); lia|reflexivity].
+  - destruct LS as [-> | (s' & e & -> & -> & SE)]; cbn [bind]; [reflexivity|]. rewrite SE. reflexivity.
+Qed.
 End Loop.
